@@ -334,6 +334,8 @@ fn random_trace(mode: &str, rng: &mut SmallRng, steps: usize) -> Sim {
     let faults = mode == "fault";
     let dropmux = matches!(mode, "fault" | "all");
     let bridges = mode == "bridge";
+    // giving up a pending stream / bind request (a timeout, a select!)
+    let cancels = matches!(mode, "open" | "bind" | "all" | "fault");
     let max_streams = if mode == "pair" || mode == "fair" { 2 } else { 4 };
     let mut fault_at = if faults { rng.random_range(0..steps.max(1)) } else { usize::MAX };
     let mut opened = [0usize; 2];
@@ -391,6 +393,18 @@ fn random_trace(mode: &str, rng: &mut SmallRng, steps: usize) -> Sim {
                     cands.push((3, json!({"op": "open_poll", "e": e, "c": c, "draws": draws})));
                 }
                 cands.push((3, json!({"op": "accept", "e": e})));
+                if cancels {
+                    for c in sim.eps[i].opens.keys() {
+                        if rng.random_range(0..8) == 0 {
+                            cands.push((1, json!({"op": "cancel", "e": e, "c": c})));
+                        }
+                    }
+                    for c in sim.eps[i].binds.keys() {
+                        if rng.random_range(0..4) == 0 {
+                            cands.push((1, json!({"op": "cancel", "e": e, "c": c})));
+                        }
+                    }
+                }
                 if dgrams {
                     let hostlen = pick(rng, &[0u32, 1, 2, 255, 256, 300]);
                     let datalen = pick(rng, &[0u32, 1, 2, 3, 4, 5, 100]);
